@@ -4,6 +4,6 @@ CONSTANTS
   WitnessN = 6
 INIT Init
 NEXT Next
-INVARIANTS StackPath VisitedIsPrefix PreIsRecursive PostIsRecursive Bounded ClausesAgree WitnessSound
+INVARIANTS StackIsPath VisitedIsPrefix PreIsRecursive PostIsRecursive Bounded ClausesAgree WitnessSound
 PROPERTIES TreeUnchanged
 CHECK_DEADLOCK FALSE
